@@ -45,6 +45,11 @@ def okb(case, io, mo):
         return False, "implementation crashed"
     comb, ptype, n = case[3], case[4], case[5]
     w = {0: 1, 1: 3, 2: 1}[ptype if comb <= 6 else (2 if comb in (10, 11, 12, 18, 19, 20, 21) else 0)]
+    if io == [99] and mo != [99] and comb == 14:
+        # Expirer: now - stamp is representable, so nothing can overflow: a panic is a failure of the contract
+        i, p2 = dec_out_py(case, 6, 1)
+        if i[0] == "S" and case[p2] != 1 and I64_MIN <= case[p2 + 1] - i[1] <= I64_MAX:
+            return False, "Expirer panicked although the age %d of the datum is representable (limit %d)" % (case[p2 + 1] - i[1], case[p2 + 2])
     if io == [99] or mo == [99] or io == [97]:
         return True, ""      # panics (unit mismatch, overflow, arity 0) are compared by the correspondence
     # two reads
@@ -259,6 +264,13 @@ def gen(rng, tier, cfg, pow_query):
                         nowv = t + lim + rel
                     tg = tErr(1 if now == "E1" else 2) if now != "T" else tOk(nowv)
                     add(hdr(14, 0, 1) + mk_out(ic, t, pay(0)) + tg + [lim], "Expirer")
+    # limits up to "never expire" (i64::MAX) and negative limits, ages of both signs
+    for ic in CATS:
+        for lim in (I64_MAX, I64_MAX - 7, 2**62, -1, -10**9, I64_MIN):
+            for _ in range(reps):
+                t = rng.choice([0, 5, -5, 10**12, -10**12, 2**40, I64_MAX - 3, I64_MIN + 3])
+                nowv = max(I64_MIN, min(I64_MAX, t + rng.choice([0, 1, -1, 10**9, -10**9, 2**50])))
+                add(hdr(14, 0, 1) + mk_out(ic, t, pay(0)) + tOk(nowv) + [lim], "Expirer/limits")
     for ic in CATS:
         for _ in range(reps):
             t = times_for(rng, (0,))[0]
